@@ -1007,6 +1007,42 @@ static void run_c05(void) {
         }
         vh_flag("all_pairs_reduced_alphabet", complete);
     }
+    /* every producer of a tagged encoding must yield THE encoding of the value ("equal values have identical bytes"):
+     * the in-place adders store their result as a tagged varint too */
+    if (vh_section_begin("add_results")) {
+        u64vec B = {0};
+        alpha_boundary_windows(&B, 1);
+        for (size_t i = 0; i < B.n; i++) {
+            if (!vh_case()) {
+                continue;
+            }
+            for (size_t j = 0; j < B.n; j++) {
+                uint64_t sv = B.v[i], tv = B.v[j];
+                if (sv > (uint64_t)INT64_MAX || tv > (uint64_t)INT64_MAX) {
+                    continue; /* the adders work on the value as a signed 64-bit integer */
+                }
+                int64_t a = (int64_t)tv - (int64_t)sv;
+                for (int grow = 0; grow < 2; grow++) {
+                    uint8_t slot[16], canon[16];
+                    memset(slot, 0x5a, sizeof slot);
+                    int ls = (int)varintTaggedPut64(slot, sv);
+                    int lc = (int)varintTaggedPut64(canon, tv);
+                    int ret = grow ? (int)varintTaggedAddGrow(slot, a) : (int)varintTaggedAddNoGrow(slot, a);
+                    vh_count("calls", 3);
+                    if (!grow && lc > ls) {
+                        continue; /* does not fit: buffer left alone (C12's business) */
+                    }
+                    if (ret != lc || memcmp(slot, canon, (size_t)lc)) {
+                        vh_fail(grow ? "tagged.AddGrow" : "tagged.AddNoGrow", "equal_values_different_bytes", "untagged", "stored %" PRIu64 " + %" PRId64 " = %" PRIu64 ": bytes %s (returned width %d) but Put64 of the same value gives %s", sv, a, tv,
+                                vh_hex(slot, 9), ret, vh_hex(canon, (size_t)lc));
+                    }
+                }
+            }
+            vh_count("cases", B.n);
+        }
+        vh_class("add_results", "in-place add results over %zu x %zu boundary values compared with the canonical encoding", B.n, B.n);
+        free(B.v);
+    }
     /* tuples: concatenations */
     static const uint64_t T2[] = {0, 1, 239, 240, 241, 495, 496, 497, 2287, 2288, 2289, 67823, 67824, 16777215ULL, 16777216ULL,
                                   4294967295ULL, 4294967296ULL, 1099511627775ULL, 1099511627776ULL, 281474976710655ULL,
